@@ -139,7 +139,55 @@ func (fn *Func) GuardsAt(n ast.Node) *Formula {
 			break
 		}
 	}
+	// counting loops: for i := A; …; i++ { … }  gives  i >= A inside the body
+	info := fn.Info()
+	for c := ast.Node(n); c != nil; c = fn.Prog.parents[c] {
+		fs, ok := fn.Prog.parents[c].(*ast.ForStmt)
+		if !ok || fs.Body != c {
+			continue
+		}
+		init, ok := fs.Init.(*ast.AssignStmt)
+		if !ok || init.Tok != token.DEFINE || len(init.Lhs) != 1 || len(init.Rhs) != 1 {
+			continue
+		}
+		iv, ok := init.Lhs[0].(*ast.Ident)
+		if !ok {
+			continue
+		}
+		io := info.ObjectOf(iv)
+		inc := false
+		switch ps := fs.Post.(type) {
+		case *ast.IncDecStmt:
+			if id, ok := ast.Unparen(ps.X).(*ast.Ident); ok && info.ObjectOf(id) == io && ps.Tok == token.INC {
+				inc = true
+			}
+		case *ast.AssignStmt:
+			if len(ps.Lhs) == 1 && ps.Tok == token.ADD_ASSIGN {
+				if id, ok := ast.Unparen(ps.Lhs[0]).(*ast.Ident); ok && info.ObjectOf(id) == io {
+					if v, isC := constInt(info, ps.Rhs[0]); isC && v > 0 {
+						inc = true
+					}
+				}
+			}
+		}
+		if !inc || len(fn.Assignments(io)) != 2 {
+			continue
+		}
+		parts = append(parts, &Formula{Atom: &Atom{E: &ast.BinaryExpr{X: iv, Op: token.GEQ, Y: init.Rhs[0]}, Pol: true}})
+	}
+	if root := rootFunc(fn); root.extraGuard != nil {
+		if eg := root.extraGuard[n]; eg != nil {
+			parts = append(parts, eg)
+		}
+	}
 	return fn.expandHelperCalls(fn.expandBoolVars(fAnd(parts...), 2), 2)
+}
+
+func rootFunc(fn *Func) *Func {
+	for fn.Parent != nil {
+		fn = fn.Parent
+	}
+	return fn
 }
 
 // expandHelperCalls: an atom that calls a boolean helper of the same package whose body is a
@@ -595,18 +643,14 @@ func (fn *Func) HoldsOnAllPaths(at ast.Node, q func(*Atom) bool) bool {
 	}
 	// the formula established by taking edge p -> s
 	edgeFormula := func(p, s *cfg.Block) *Formula {
-		if len(p.Succs) != 2 || p.Succs[0] == p.Succs[1] || len(p.Nodes) == 0 || p.Kind == cfg.KindRangeLoop {
+		if len(p.Succs) != 2 {
 			return nil
 		}
-		cond, ok := p.Nodes[len(p.Nodes)-1].(ast.Expr)
-		if !ok {
-			return nil
+		k := 1
+		if s == p.Succs[0] {
+			k = 0
 		}
-		if _, isCase := fn.Prog.parents[cond].(*ast.CaseClause); isCase {
-			return nil
-		}
-		pol := s == p.Succs[0]
-		return fn.expandBoolVars(decompose(cond, pol, nil), 2)
+		return fn.edgeCondFormula(p, k)
 	}
 	// objects assigned in a block (to invalidate atoms that mention them)
 	assignedIn := func(b *cfg.Block, upto ast.Node) map[types.Object]bool {
@@ -700,4 +744,27 @@ func (fn *Func) HoldsOnAllPaths(at ast.Node, q func(*Atom) bool) bool {
 		return res
 	}
 	return visit(start, assignedIn(start, fn.CFGNodeOf(at)), 0)
+}
+
+// edgeCondFormula: the formula established by leaving block b through successor k (0 = the
+// condition held): a boolean condition, or `tag == value` for a case of a tagged switch.
+func (fn *Func) edgeCondFormula(b *cfg.Block, k int) *Formula {
+	if len(b.Succs) != 2 || b.Succs[0] == b.Succs[1] || len(b.Nodes) == 0 || b.Kind == cfg.KindRangeLoop {
+		return nil
+	}
+	cond, ok := b.Nodes[len(b.Nodes)-1].(ast.Expr)
+	if !ok {
+		return nil
+	}
+	if cc, isCase := fn.Prog.parents[cond].(*ast.CaseClause); isCase {
+		sw, _ := fn.enclosingSwitch(cc).(*ast.SwitchStmt)
+		if sw == nil {
+			return nil
+		}
+		if sw.Tag != nil {
+			return &Formula{Atom: &Atom{E: &ast.BinaryExpr{X: sw.Tag, Op: token.EQL, Y: cond}, Pol: k == 0}}
+		}
+		// tagless switch: the case expression is a boolean condition
+	}
+	return fn.expandHelperCalls(fn.expandBoolVars(decompose(cond, k == 0, nil), 2), 2)
 }
